@@ -148,3 +148,53 @@ Print Assumptions C16_split_total.
 Print Assumptions C16_families_shape.
 Print Assumptions C16_families_cover.
 Print Assumptions C16_reader_over_split.
+
+(* ================================================================ MultiReaderAt.ReadAt itself, TRANSLATED
+   split-car-fetcher/fetcher.go:(MultiReaderAt).ReadAt is re-translated from /repo's working tree on every check
+   (Generated/GoLiteC16.v; semantics GoLite.v; DESIGN.md section 10a): the loop over the offsets with its `continue`,
+   the min/max arithmetic in int64, the io.EOF bookkeeping and the early return of other errors.  The per-segment
+   readers are an oracle that behaves like bytes.Reader / io.SectionReader (C16_MR.seg_read).  Theorems: the
+   translated function is the model's segment walk (read_at_multi), hence — with C16_concat — it serves exactly the
+   concatenation of the segments. *)
+Require YF.GoLite YF.Generated.GoLiteC16 YF.GoLiteC16_ReadAt.
+Import ZArith String.
+
+Theorem C16_translated_ReadAt_is_the_model : forall (segs : list (list Z)),
+  (forall j, (0 <= nth j (offsets segs) 0 < 4611686018427387904)%Z) -> (Z.of_nat (List.length segs) < 4611686018427387904)%Z ->
+  forall f (p : list Z) off, (0 <= off)%Z -> (off + GoLite.zlen p < 4611686018427387904)%Z -> (List.length segs < f)%nat ->
+  let '(bs, e) := read_at_multi segs off (GoLite.zlen p) in
+  exists p', GoLite.call GoLiteC16.prog (GoLiteC16_ReadAt.ext_rd segs) f "MultiReaderAt.ReadAt"%string
+               [GoLiteC16_ReadAt.mval segs; GoLite.VInts p; GoLite.VInt off]
+             = GoLite.RRet (GoLite.VTuple [GoLite.VInt (GoLite.zlen bs); GoLiteC16_ReadAt.enc_rerr e; GoLite.VInts p']) /\
+             List.length p' = List.length p /\ firstn (List.length bs) p' = bs.
+Proof. exact (GoLiteC16_ReadAt.ReadAt_is_read_at_multi GoLiteC16.prog GoLiteC16.prog_MultiReaderAt_ReadAt). Qed.
+
+(* end to end: for every non-empty segment list of total size below 2^62, every offset >= 0 and every buffer, the
+   translated ReadAt returns n = the number of bytes of the concatenation available at [off, off+len(p)), exactly
+   those bytes in p[0:n], io.EOF iff the read is short, never another error and never a panic *)
+Theorem C16_translated_ReadAt_is_the_concatenation : forall (segs : list (list Z)) f (p : list Z) off,
+  segs <> [] -> (total segs < 4611686018427387904)%Z -> (Z.of_nat (List.length segs) < 4611686018427387904)%Z ->
+  (0 <= off)%Z -> (off + GoLite.zlen p < 4611686018427387904)%Z -> (List.length segs < f)%nat ->
+  let bs := slice segs off (GoLite.zlen p) in
+  exists p', GoLite.call GoLiteC16.prog (GoLiteC16_ReadAt.ext_rd segs) f "MultiReaderAt.ReadAt"%string
+               [GoLiteC16_ReadAt.mval segs; GoLite.VInts p; GoLite.VInt off]
+             = GoLite.RRet (GoLite.VTuple [GoLite.VInt (GoLite.zlen bs);
+                                           (if (GoLite.zlen bs <? GoLite.zlen p)%Z then GoLite.VErr "io.EOF"%string else GoLite.VNil);
+                                           GoLite.VInts p']) /\
+             List.length p' = List.length p /\ firstn (List.length bs) p' = bs.
+Proof. exact (GoLiteC16_ReadAt.ReadAt_is_the_concatenation GoLiteC16.prog GoLiteC16.prog_MultiReaderAt_ReadAt). Qed.
+
+(* non-vacuity: the translated ReadAt RUNS in the kernel on three segments (one empty): a read across two boundaries
+   and a short read at the end *)
+Example C16_translated_ReadAt_runs :
+  let segs := [[1; 2; 3]%Z; []; [4; 5]%Z; [6]%Z] in
+  GoLite.call GoLiteC16.prog (GoLiteC16_ReadAt.ext_rd segs) 10 "MultiReaderAt.ReadAt"%string
+    [GoLiteC16_ReadAt.mval segs; GoLite.VInts [0; 0; 0; 0]%Z; GoLite.VInt 2%Z]
+  = GoLite.RRet (GoLite.VTuple [GoLite.VInt 4%Z; GoLite.VNil; GoLite.VInts [3; 4; 5; 6]%Z]) /\
+  GoLite.call GoLiteC16.prog (GoLiteC16_ReadAt.ext_rd segs) 10 "MultiReaderAt.ReadAt"%string
+    [GoLiteC16_ReadAt.mval segs; GoLite.VInts [9; 9; 9; 9]%Z; GoLite.VInt 4%Z]
+  = GoLite.RRet (GoLite.VTuple [GoLite.VInt 2%Z; GoLite.VErr "io.EOF"%string; GoLite.VInts [5; 6; 9; 9]%Z]).
+Proof. vm_compute. split; reflexivity. Qed.
+
+Print Assumptions C16_translated_ReadAt_is_the_model.
+Print Assumptions C16_translated_ReadAt_is_the_concatenation.
